@@ -90,7 +90,12 @@ def observe(n, outcomes, layout=None, perturb=False):
 
             def one():
                 try:
-                    node.request('GET', 'chains/main/blocks/head')
+                    if perturb and len(obs) % 3 == 2:
+                        # a streaming query of the query layer (monitor/...) is a request like any other: it goes to the node whose turn it is
+                        from pytezos.rpc.shell import ShellQuery
+                        ShellQuery(node).monitor.bootstrapped()
+                    else:
+                        node.request('GET', 'chains/main/blocks/head')
                     box.append('ok')
                 except (RpcError, AssertionError):
                     box.append('err')
